@@ -79,7 +79,7 @@ def step_digest(ctx, st, inv_token=None):
     scores = {}
     for r in fr.object_results:
         key = result_key(ctx, r, inv_token)
-        scores[key] = tuple(_f(getattr(r, a).value) for a in _MODES)
+        scores[key] = tuple(_f(V.score_value(r, a)) for a in _MODES)
     return {
         "frame": st.frame_kind,
         "frame_index": st.frame_index,
